@@ -21,7 +21,7 @@ fn exec(line: &str, model: &mut Model) -> Option<Exec> {
         return p_hex::exec(line);
     }
     match op {
-        "enc" | "dec" | "spec.enc" | "spec.dec" | "crcok" | "crc16" | "crc32" | "json.enc" => p_codec::exec(line, model),
+        "enc" | "hist" | "histupd" | "dec" | "spec.enc" | "spec.dec" | "crcok" | "crc16" | "crc32" | "json.enc" => p_codec::exec(line, model),
         "spec.adm" => p_misc::exec(line, model),
         _ if op.starts_with("eid.") || op.starts_with("time.") || op.starts_with("adm.") || op == "ts.string" || op == "ts.sinks" => p_misc::exec(line, model),
         "validate" | "id" | "idpair" | "info" | "upd" | "seq" | "build" => p_misc::exec(line, model),
